@@ -31,7 +31,9 @@ RootSets == <<
     <<Root("a/", <<"a">>, <<"a">>)>>,                                     \* 8 CODE-DERIVED: trailing separator
     <<Root("./", <<>>, <<>>)>>,                                           \* 9 CODE-DERIVED: "./" is "."
     <<RootVia("a/..", <<>>, <<"a", "..">>, <<"a">>)>>,                    \* 10 the working directory through a/..: ".." is not hidden
-    <<RootVia("a/skip/..", <<"a">>, <<"a", "skip", "..">>, <<"a", "skip">>)>>   \* 11 a nested directory through its child
+    <<RootVia("a/skip/..", <<"a">>, <<"a", "skip", "..">>, <<"a", "skip">>)>>,  \* 11 a nested directory through its child
+    <<Root(".", <<>>, <<>>), Root("a", <<"a">>, <<"a">>)>>,               \* 12 overlapping roots: independent walks, what lies under both is offered once per root
+    <<Root("a", <<"a">>, <<"a">>), Root("./a", <<"a">>, <<"a">>)>>        \* 13 the same root twice (two spellings)
 >>
 RootsOK(rs) == \A i \in DOMAIN rs : RootOK(rs[i])
 
@@ -76,7 +78,7 @@ O4  == {o \in Opts : o.file /\ o.dir}
 O2  == {o \in O4 : o.follow = o.hidden}
 BigCombos == (O12 \X {1, 2} \X {1}) \cup (O4 \X (3..Len(SkipLists)) \X {1})
              \cup (O4 \X {1, 3} \X {2}) \cup (O4 \X {1, 2} \X {4}) \cup (O4 \X {1, 5} \X {7})
-             \cup (O2 \X {1, 3} \X {6}) \cup (O2 \X {1} \X {3, 5, 8, 9}) \cup (O4 \X {1, 3} \X {10, 11})
+             \cup (O2 \X {1, 3} \X {6}) \cup (O2 \X {1} \X {3, 5, 8, 9}) \cup (O4 \X {1, 3} \X {10, 11}) \cup (O2 \X {1} \X {12, 13})
 Combos == { c \in IF Cardinality(tree) <= FullUpTo THEN Opts \X (1..Len(SkipLists)) \X (1..Len(RootSets))
                                                    ELSE BigCombos :
               RootsOK(RootSets[c[3]]) /\ SkipRelevant(c[2]) }
